@@ -736,3 +736,6 @@ PROPS["C16"]["explanation"] += " The defect F7 in general form: at EVERY Map sta
 
 PROPS["C17"]["required_theorems"] += ["Crdt.C17.add_all_always_flagged"]
 PROPS["C17"]["explanation"] += " The defect F8 in general form: at every set state without pending removes, add_all of two different members with the actor's next dot yields a state validate_merge rejects against itself (add_all_always_flagged)."
+
+# the freshness oracle now knows which actors were moved between replicas (actor_home), so the crate's own scenarios can run under C07 as well
+PROPS["C07"]["profiles"] = [_CORPUS_ORSWOT] + PROPS["C07"]["profiles"]
